@@ -40,7 +40,7 @@ REJECT = [
     'SELECT b, d, sum(a) FROM #t GROUP BY b, d PIVOT BY b, b', 'SELECT b, d, sum(a) FROM #t GROUP BY b, d PIVOT BY 1, 1', 'SELECT b, d, sum(a) FROM #t GROUP BY b, d PIVOT BY b, zz',
     'SELECT b, d, sum(a) AS s FROM #t GROUP BY b, d PIVOT BY b, s', 'SELECT a, b FROM #t PIVOT BY a, b', 'SELECT a, b FROM #t PIVOT BY 1, 2',
     # clause specific
-    'SELECT coalesce(a, b) FROM #t', 'SELECT a FROM #t WHERE a IN (SELECT a, b FROM #t)', 'SELECT 1 IN 2 FROM #t', 'SELECT a IN b FROM #t', 'SELECT a NOT IN 3 FROM #t',
+    'SELECT coalesce(a, b) FROM #t', 'SELECT coalesce() FROM #t', 'SELECT b, sum(a) FROM #t GROUP BY b HAVING count(*) > a', 'SELECT b, sum(a) FROM #t GROUP BY b HAVING sum(a) > length(b)', 'SELECT a FROM #t WHERE a IN (SELECT a, b FROM #t)', 'SELECT 1 IN 2 FROM #t', 'SELECT a IN b FROM #t', 'SELECT a NOT IN 3 FROM #t',
     'SELECT a, sum(c) FROM #t GROUP BY o', 'SELECT a FROM #t WHERE a > %s AND b = %(x)s',
     # syntax
     'SELECT', 'SELECT a FROM', 'SELECT a FROM #t WHERE', 'SELEC a', 'SELECT a,, b FROM #t', 'SELECT (a FROM #t', 'SELECT a FROM #t ORDER', 'SELECT a FROM #t LIMIT x',
